@@ -719,11 +719,14 @@ def execute_generic(prop, scenario, params, streams=None):
 
             pre08 = oracles.c08_pre(mt) if prop == "C08" else None
             pre18 = oracles.c18_pre(world) if prop == "C18" else None
+            pre19 = oracles.c19_pre(world) if prop == "C19" else None
             sess = driver.run_session(
                 world, model, sdesc, prop, si, gen_cb=gen_cb, check_shape=lambda m, sd: gen.shape_ok(m, sd, params) and gen.ops_allowed(m, sd)
             )
             sess.c08_pre = pre08
             sess.c18_pre = pre18
+            if getattr(sess, "c19_pre", None) is None:
+                sess.c19_pre = pre19
             if sdesc is None:
                 scenario["sessions"].append(sess.desc)
             stats["sessions"] += 1
@@ -733,6 +736,21 @@ def execute_generic(prop, scenario, params, streams=None):
             stats["patch_invocations"] += len(sess.captures)
             for k, v in sess.fired.items():
                 stats["fault." + k] += v
+            if prop == "C19" and sess.error is not None and type(sess.error).__name__ == "SymbolUsesRemainingError":
+                # expected iff some non-forced symbol still has uses; then
+                # the C05 failure-path validator must pass
+                from . import validate
+
+                unforced = [n for n, f in sess.delsyms.items() if not f]
+                driver.apply_to_model(sess)  # the modifications did happen
+                model.end_session()
+                used = oracles.c19_uses(model, unforced)
+                stats["fault.delete-symbol-with-uses"] += 1
+                if not used:
+                    raise core.Violation("C19", "wrong-error", {"what": "SymbolUsesRemainingError although no non-forced symbol has uses", "symbols": unforced}, {"kind": "spurious-error"})
+                validate.validate(world, sess.pre_blocks, failure=True, pre_symbol_refs=None)
+                stats["failed_sessions"] += 1
+                break
             if sess.error is not None and type(sess.error).__name__ == "PaddingError":
                 # documented failure: the ABI's nop does not fit into the
                 # padding an alignment requirement asks for (4-byte nops)
@@ -747,6 +765,8 @@ def execute_generic(prop, scenario, params, streams=None):
                     {"exc": type(sess.error).__name__, "msg": _normalize(str(sess.error))},
                 )
             driver.apply_to_model(sess)
+            if prop == "C19" and getattr(sess, "c19_used", None):
+                raise core.Violation("C19", "wrong-error", {"what": "a non-forced symbol with remaining uses was deleted without SymbolUsesRemainingError", "symbols": sess.c19_used}, {"kind": "missing-error"})
             model.end_session()
             obs = observe.Obs(world, model)
             mt = oracles.align_model(world, model, obs, prop)
@@ -812,6 +832,8 @@ def _op_str(op):
         return f"reg {json.dumps(op['scope'])}: " + _patch_str(op["patch"])
     if k == "retarget":
         return f"retarget {op['a']} -> {op['b']}"
+    if k == "delsym":
+        return f"delsym {op['name']} force={op.get('force')}"
     return json.dumps(op)[:80]
 
 
@@ -933,6 +955,12 @@ def _referenced_labels(sc):
         used.add(f["name"])
     for a, b in sc["module"].get("symbol_forwarding", []):
         used.update([a, b])
+    st = sc["module"].get("symtabs") or {}
+    used.update(st.get("elf_info", []))
+    used.update(st.get("tabidx", {}))
+    used.update((st.get("versions") or {}).get("entries", {}))
+    used.update(st.get("pe_imports", []))
+    used.update(st.get("pe_exports", []))
     return used
 
 
